@@ -10,6 +10,7 @@ import (
 
 	"pgregory.net/rapid"
 
+	"verif/harness/ev"
 	"verif/harness/peer"
 	"verif/harness/rawframe"
 	"verif/harness/refhpack"
@@ -390,7 +391,7 @@ type c14Down struct {
 	Size  int    `json:"size"`
 	Chunk int    `json:"chunk"`
 	Pad   int    `json:"pad,omitempty"`
-	Empty bool   `json:"empty,omitempty"` // padded-but-empty DATA frames in between
+	Empty bool   `json:"empty,omitempty"` // empty DATA frames in between (all padding when Pad > 0, zero-length otherwise)
 }
 
 type c14CCase struct {
@@ -406,6 +407,9 @@ func c14CRun(c c14CCase) Outcome {
 	timeout := c14CTimeout
 	if c.TimeoutMs > 0 {
 		timeout = time.Duration(c.TimeoutMs) * time.Millisecond
+	}
+	if ms := ev.EnvInt("VERIF_C14_TIMEOUT_MS", 0); ms > 0 && c.TimeoutMs > 0 {
+		timeout = time.Duration(ms) * time.Millisecond // experiment knob (not used by the checks)
 	}
 	env, err := speer.NewEnv(http2.ClientOpts{PingInterval: time.Hour, MaxResponseTime: timeout})
 	if err != nil {
@@ -670,7 +674,7 @@ func c14CGen(t *rapid.T) c14CCase {
 		if rapid.IntRange(0, 2).Draw(t, "pad") == 0 {
 			d.Pad = rapid.SampledFrom([]int{1, 2, 100, 256}).Draw(t, "padlen")
 		}
-		d.Empty = rapid.IntRange(0, 3).Draw(t, "empty") == 0 && d.Pad > 0
+		d.Empty = rapid.IntRange(0, 3).Draw(t, "empty") == 0 // with Pad 0 these are plain zero-length DATA frames
 		total += d.Size
 		c.Downs = append(c.Downs, d)
 	}
@@ -688,7 +692,7 @@ func c14CGen(t *rapid.T) c14CCase {
 		if d.Size > 2<<20 {
 			d.Size = 2 << 20
 		}
-		d.Empty = d.Pad > 0 && rapid.Bool().Draw(t, "monoempty")
+		d.Empty = rapid.Bool().Draw(t, "monoempty")
 		c.Downs, c.Repeat, c.TimeoutMs = []c14Down{d}, -1, 30
 	}
 	return c
